@@ -1,5 +1,5 @@
 """Run ElectionTrace.tla over a batch of recorded traces and collect the spec-written verdicts."""
-import os, json
+import os, json, re
 from .common import run_tlc, write_ndjson, read_ndjson, in_arith_range, Machinery, tlc_error_excerpt, OUT
 
 ALL_MONITORS = ["MonRound0", "MonThreshold0", "MonPartition", "MonExactlySeats", "MonBounded", "MonConservation", "MonRandomTie",
@@ -13,12 +13,41 @@ def _one(module, cfg, workdir, k, chunk):
     vf = os.path.join(wd, "verdicts.ndjson")
     if os.path.exists(vf):
         os.remove(vf)
-    write_ndjson(tf, [{a: b for a, b in t.items() if not a.startswith("_")} for t in chunk])
-    r = run_tlc(module, cfg, wd, env={"TRACE_FILE": tf, "VERDICT_FILE": vf}, workers=1, short=True)
-    vs = read_ndjson(vf)
-    if not os.environ.get("KEEP_TRACES"):
+    chunk = list(chunk)
+    dropped = []
+    agg = None
+    for attempt in range(12):
+        if os.path.exists(vf):
+            os.remove(vf)
+        write_ndjson(tf, [{a: b for a, b in t.items() if not a.startswith("_")} for t in chunk])
+        r = run_tlc(module, cfg, wd, env={"TRACE_FILE": tf, "VERDICT_FILE": vf}, workers=1, short=True)
+        if agg is None:
+            agg = r
+        else:
+            for k in ("states", "distinct", "wall"):
+                r[k] += agg[k]
+            agg = r
+        if r["hard"] != "overflow":
+            break
+        # TLC aborts (never wraps) when an intermediate value of the *specification's own* computation leaves the 32-bit range.
+        # That depends only on the trace's inputs, not on what the code logged: the trace is outside TLC's exact range and is
+        # counted as skipped, the rest of the batch is validated again.
+        m = re.search(r"tid = (\d+)", r["out"])
+        if not m:
+            break
+        pos = int(m.group(1))
+        if not (1 <= pos <= len(chunk)):
+            break
+        dropped.append(chunk.pop(pos - 1))
+        r["hard"] = None
+        r["rc"] = 0
+        if not chunk:
+            break
+    vs = read_ndjson(vf) if chunk else []
+    if not os.environ.get("KEEP_TRACES") and os.path.exists(tf):
         os.remove(tf)
-    return r, vs
+    agg["dropped"] = dropped
+    return agg, vs
 
 
 def validate(traces, workdir, monitors=ALL_MONITORS, procs=16, module="ElectionTrace", spec="TSpec", per_proc=1500,
@@ -49,7 +78,11 @@ def validate(traces, workdir, monitors=ALL_MONITORS, procs=16, module="ElectionT
     with ThreadPoolExecutor(max_workers=procs) as ex:
         results = list(ex.map(lambda kc: _one(module, cfg, workdir, kc[0], kc[1]), enumerate(chunks)))
     stats["wall"] = _t.time() - t0
+    overflowed = set()
     for r, vs in results:
+        for t in r.get("dropped", []):
+            overflowed.add(t["id"])
+            stats["skipped_arith"] += 1
         stats["states"] += r["states"]
         stats["distinct"] += r["distinct"]
         stats["runs"] += 1
@@ -66,6 +99,7 @@ def validate(traces, workdir, monitors=ALL_MONITORS, procs=16, module="ElectionT
             else:
                 if not any(m["clause"] == v["clause"] for m in d["monitors"]):
                     d["monitors"].append(v)
+    ok = [t for t in ok if t["id"] not in overflowed]
     for t in ok:
         if t["id"] not in verdicts or verdicts[t["id"]]["final"] is None:
             raise Machinery("no final verdict for trace %s (verdicts must be total)" % t["id"])
